@@ -594,13 +594,19 @@ func c11R5(p *core.Prog, r *core.Report) {
 			}
 		}
 		upd, bound := false, false
-		core.Calls(lit, func(c ssa.CallInstruction) {
-			if cal := core.Callee(c); cal != nil && core.IsModMethod(cal, "internal/auth", "Auth", "UpdateRequest") {
-				if pr, ok := core.CallArg(c, 1).(*ssa.Parameter); ok && pr == reqParam {
-					upd = true
+		// in the hook itself, or in a helper of the package that is handed the redirected request
+		unit := core.Helpers(lit, 2)
+		for _, uf := range sortedFuncs(unit) {
+			core.Calls(uf, func(c ssa.CallInstruction) {
+				if cal := core.Callee(c); cal != nil && core.IsModMethod(cal, "internal/auth", "Auth", "UpdateRequest") {
+					for _, o := range core.Origins(core.CallArg(c, 1), core.SliceOpts{Helpers: unit}) {
+						if o.Kind == core.OParam && o.Param == reqParam {
+							upd = true
+						}
+					}
 				}
-			}
-		})
+			})
+		}
 		for _, b := range lit.Blocks {
 			ifi, ok := core.LastInstr(b).(*ssa.If)
 			if !ok {
